@@ -88,9 +88,43 @@ class Interp(Exec):
 
     def st_If(self, s):
         if self.branch(self.truth(self.ev(s.test))):
+            self.narrow(s.test, True)
             self.exec_block(s.body)
         else:
+            self.narrow(s.test, False)
             self.exec_block(s.orelse)
+
+    def narrow(self, test, outcome):
+        """After branching on `x`, `x is None`, `x is not None`, `not x`: a maybe-None local known to be present loses its
+        Optional wrapper (the path condition already says so)."""
+        if isinstance(test, ast.UnaryOp) and isinstance(test.op, ast.Not):
+            return self.narrow(test.operand, not outcome)
+        if isinstance(test, ast.BoolOp) and isinstance(test.op, ast.And) and outcome:
+            for v in test.values:
+                self.narrow(v, True)
+            return
+        if isinstance(test, ast.BoolOp) and isinstance(test.op, ast.Or) and not outcome:
+            for v in test.values:
+                self.narrow(v, False)
+            return
+        name, present = None, None
+        if isinstance(test, ast.Name):
+            name, present = test.id, outcome  # truthy implies not None
+            if not outcome:
+                return
+        elif isinstance(test, ast.Compare) and len(test.ops) == 1 and isinstance(test.left, ast.Name) and isinstance(test.comparators[0], ast.Constant) and test.comparators[0].value is None:
+            if isinstance(test.ops[0], (ast.Is, ast.Eq)):
+                name, present = test.left.id, not outcome
+            elif isinstance(test.ops[0], (ast.IsNot, ast.NotEq)):
+                name, present = test.left.id, outcome
+        if name is None or name not in self.st.env:
+            return
+        v = self.st.env[name]
+        if isinstance(v, VOpt):
+            if present:
+                self.st.env[name] = v.val
+            else:
+                self.st.env[name] = VNone
 
     def st_Assert(self, s):
         c = self.truth(self.ev(s.test))
@@ -746,10 +780,24 @@ class Interp(Exec):
                 self.pol = saved
             return self.ite(c, a, b)
         if self.branch(self.truth(self.ev(n.test))):
-            return self.ev(n.body)
-        return self.ev(n.orelse)
+            saved = dict(self.st.env)
+            self.narrow(n.test, True)
+            try:
+                return self.ev(n.body)
+            finally:
+                self.st.env = saved
+        saved = dict(self.st.env)
+        self.narrow(n.test, False)
+        try:
+            return self.ev(n.orelse)
+        finally:
+            self.st.env = saved
 
     def ite(self, c, a, b):
+        if isinstance(a, VOpt) or isinstance(b, VOpt):
+            ao = a if isinstance(a, VOpt) else VOpt(z3.BoolVal(a is VNone), a if a is not VNone else b.val)
+            bo = b if isinstance(b, VOpt) else VOpt(z3.BoolVal(b is VNone), b if b is not VNone else a.val)
+            return VOpt(z3.If(c, ao.isnone, bo.isnone), self.ite(c, ao.val, bo.val))
         for cls in (VInt, VBool, VStr, VReal):
             if isinstance(a, cls) and isinstance(b, cls):
                 return cls(z3.If(c, a.t, b.t))
@@ -850,6 +898,8 @@ class Interp(Exec):
         raise Unsupported("container equality")
 
     def contains(self, c, x):
+        if isinstance(c, VOpt) and self.spec_mode:
+            c = c.val
         if isinstance(c, VCont):
             cc = self.cont(c)
             if isinstance(cc, DictV):
@@ -925,6 +975,8 @@ class Interp(Exec):
         if isinstance(n.slice, ast.Slice):
             return self.slice(base, n.slice)
         k = self.ev(n.slice)
+        if isinstance(base, VOpt) and self.spec_mode:
+            base = base.val
         if isinstance(base, VCont):
             c = self.cont(base)
             if isinstance(c, DictV):
